@@ -7,8 +7,9 @@ import (
 	"github.com/jsightapi/jsight-schema-core/notations/jschema/ischema/constraint"
 )
 
-func collectUserTypes(node ischema.Node) []string {
+func collectUserTypes(node ischema.Node, types map[string]ischema.Type) []string {
 	c := &userTypesCollector{
+		types:            types,
 		alreadyProcessed: map[string]struct{}{},
 	}
 	c.collect(node)
@@ -16,6 +17,7 @@ func collectUserTypes(node ischema.Node) []string {
 }
 
 type userTypesCollector struct {
+	types            map[string]ischema.Type
 	alreadyProcessed map[string]struct{}
 	userTypes        []string
 }
@@ -46,8 +48,23 @@ func (c *userTypesCollector) collect(node ischema.Node) {
 }
 
 func (c *userTypesCollector) collectUserTypesFromTypesListConstraint(node ischema.Node) {
-	for _, name := range UserTypeNamesFromTypesListConstraint(node) {
-		c.addType(name)
+	list, ok := node.Constraint(constraint.TypesListConstraintType).(*constraint.TypesList)
+	if !ok {
+		return
+	}
+
+	for _, name := range list.Names() {
+		switch {
+		case strings.HasPrefix(name, "@"):
+			c.addType(name)
+		case strings.HasPrefix(name, "#"):
+			// An alternative written as a rule set with more than the type
+			// name (e.g. `{type: "@a", nullable: true}`) is kept as an unnamed
+			// type.
+			if t, ok := c.types[name]; ok && t.Schema != nil && t.Schema.RootNode() != nil {
+				c.collect(t.Schema.RootNode())
+			}
+		}
 	}
 }
 
